@@ -703,7 +703,9 @@ def t1_wiring(ctx: Ctx):
                         pret = [s for s in walk_no_nested(pub) if isinstance(s, ast.Return) and isinstance(s.value, ast.Call) and dotted(s.value.func) == 'lister']
                         star = [kw.value for r_ in pret for kw in r_.value.keywords if kw.arg is None]
                         passed: set[str] | None = None
-                        if len(star) == 1 and norm(star[0]) == 'kwargs':
+                        if len(pret) == 1 and not star:
+                            passed = {'zzz'} if not any(p in lparams for p in sparams) else set()      # nothing is passed on
+                        elif len(star) == 1 and norm(star[0]) == 'kwargs':
                             passed = set(sparams) | {'zzz'}
                         elif len(star) == 1 and isinstance(star[0], ast.Call) and repo.has_func(SITES, call_name(star[0]) or '') and [norm(a) for a in star[0].args] == ['strategy', 'lister', 'kwargs']:
                             from ..minipy import Interp, Obj
